@@ -110,6 +110,31 @@ def layout_record():
     return {"kind": "layout", "vals": vals, "banks": bk, "overlaps": overlaps}
 
 
+def declare_record(rng, tier):
+    """User-declared values (the documented way of describing vendor banks): every arrangement of location types up to
+    three locations, and random longer ones, in banks with / without lock byte and latch."""
+    import itertools
+    from dali.memory.location import MemoryBank, MemoryLocation, MemoryType, NumericValue
+    tmap = {"R": MemoryType.ROM, "r": MemoryType.RAM_RO, "W": MemoryType.RAM_RW, "n": MemoryType.NVM_RO,
+            "N": MemoryType.NVM_RW, "L": MemoryType.NVM_RW_L, "P": MemoryType.NVM_RW_P}
+    seqs = [list(t) for n in (1, 2, 3) for t in itertools.product("RrWnNLP", repeat=n)]
+    for _ in range(60 if tier == "quick" else 2000):
+        seqs.append([rng.choice("RrWnNLPNNrL") for _ in range(rng.randrange(4, 9))])
+    probes = []
+    for lock, latch in ((0, 0), (1, 0), (0, 1), (1, 1)):
+        for types in seqs:
+            start = rng.randrange(3, 0xF0)
+            try:
+                bank = MemoryBank(rng.randrange(2, 200), 0xFE, has_lock=bool(lock), has_latch=bool(latch))
+                type("Decl", (NumericValue,), {"bank": bank, "locations": tuple(
+                    MemoryLocation(address=start + j, type_=tmap[t]) for j, t in enumerate(types))})
+                res = "ok"
+            except Exception as e:   # noqa: recorded
+                res = type(e).__name__
+            probes.append([lock, latch, types, res])
+    return {"kind": "declare", "probes": probes}
+
+
 def wide_raws(rng, n, tier):
     top = (1 << (8 * n)) - 1
     vals = {0, 1, top, top - 1, top - 2, top - 3, top >> 1, (top >> 1) + 1, 1 << (8 * (n - 1)), (1 << (8 * (n - 1))) - 1}
@@ -158,7 +183,7 @@ def run(tier, seed, replay=None):
             r = core.spec_check("MemMapModel", "MemMapModel.cfg", sc, workers=8)
             out.add_spec_run(r, "MemMapModel")
         cells = core.Interner()
-        recs = [layout_record()]
+        recs = [layout_record(), declare_record(random.Random(seed * 31 + 7), tier)]
         jobs = []
         for (label, name), v in sorted(VALUES.items()):
             n = len(v.locations)
@@ -249,7 +274,7 @@ def run(tier, seed, replay=None):
         out.rule = ("cells = (memory value, raw byte string) interpretations: every raw string of all 1- and 2-byte values, "
                     "boundary/scale-byte/random strings of wider values, strings with and without NUL / non-ASCII bytes; "
                     "(value, number) and (value, text) inverse conversions; one layout record comparing all %d declared "
-                    "values both ways with the table" % len(VALUES))
+                    "values both ways with the table; one declaration record (every arrangement of location types x lock/latch)" % len(VALUES))
         t = [r_ for r_ in recs if r_["kind"] == "dec"]
         out.samples = [{"bank": t[40]["bank"], "name": t[40]["name"], "prefix": t[40]["prefix"],
                         "cells_head": [cells.rows[i - 1] for i in t[40]["cells"][:3]]}] if len(t) > 40 else [recs[0]["kind"]]
